@@ -826,7 +826,7 @@ Proof.
   - intros a c tr ti [K1 K2]. split; [eapply IA_skr; [|exact K1]; skr_leaf | exact K2].
   - intros s1 s2 h res [K1 K2] E. split; [eapply IA_skr; [eapply pim_ack_skr; exact E | exact K1]|].
     eapply pim_ack_DM1; eauto.
-  - intros s3 hr hd rtt now segs' p rc rcx [K1 K2] E.
+  - intros s3 rc hd rtt now segs' p recalc [K1 K2] _ E.
     split; [eapply IA_skr; [|exact K1]; unfold set_recovering; skr_leaf|].
     unfold set_recovering. vsimpl_goal. destruct (calc_pipe_dlv _ _ _ _ _ _ _ _ E) as [F Eu].
     eapply DM1_eq; eauto.
@@ -949,7 +949,7 @@ Proof.
   - intros a b (_ & _ & _ & _ & _ & _ & _ & (l & E & Hl) & _) K. rewrite E. apply Forall_app. split; assumption.
   - intros a c tr ti K. exact K.
   - intros s1 s2 h res K E. destruct (pim_ack_skr cci _ _ _ _ E) as (E1 & _). rewrite E1. exact K.
-  - intros s3 hr hd rtt now segs' p rc rcx K _. exact K.
+  - intros s3 rc hd rtt now segs' p recalc K _ _. exact K.
 Qed.
 
 Lemma maybe_send_ack_tr : forall (s s' : vsock) b,
@@ -1005,7 +1005,7 @@ Proof.
   intros X s m (T & N & M) F Q Tt. destruct m as [s' a|s' e|]; cbn [sfp stR stH] in *; auto.
   assert (K : BA s').
   { split; [exact (Tt T)|]. split; [eapply NW_fpr; eauto|].
-    pose proof F as (_ & _ & _ & _ & _ & _ & _ & (l & E8 & E9) & E10 & E11).
+    pose proof F as (_ & _ & _ & _ & _ & _ & _ & (l & E8 & E9) & E10 & E11 & _).
     destruct M as [(M1 & M2 & M3)|(M1 & M2)].
     - left. split; [congruence|]. split; [congruence|]. rewrite E8. apply Forall_app. split; assumption.
     - right. split; [lia|]. destruct Q as (_ & _ & _ & _ & _ & _ & _ & _ & _ & _ & _ & Q12).
@@ -1018,7 +1018,7 @@ Qed.
 (* a control stage after it *)
 Lemma MF_fpr : forall s s' : vsock, fpr s s' -> v_t_retransmit s' = v_t_retransmit s -> MF s -> MF s'.
 Proof.
-  intros s s' (E1 & _ & E3 & _ & _ & _ & _ & (l & E8 & E9) & E10 & E11) Et
+  intros s s' (E1 & _ & E3 & _ & _ & _ & _ & (l & E8 & E9) & E10 & E11 & _) Et
     (p & l1 & l2 & j & g & A1 & A2 & A3 & A4 & A5 & A6 & A7 & A8 & A9).
   exists p, l1, (l ++ l2), j, g. rewrite E1, E3, E10, E11, Et.
   split; [rewrite E8, A1, app_assoc; reflexivity|]. split; [exact A2|].
@@ -1035,7 +1035,7 @@ Proof.
   { split; [exact (Tt T)|]. split; [eapply NW_fpr; eauto|].
     destruct M as [M|M].
     - left. eapply MF_fpr; eauto.
-    - right. destruct F as (_ & _ & _ & _ & _ & _ & _ & _ & _ & E11). lia. }
+    - right. destruct F as (_ & _ & _ & _ & _ & _ & _ & _ & _ & E11 & _). lia. }
   split; intros _; exact K.
 Qed.
 
@@ -1137,7 +1137,7 @@ Proof.
       split; [apply (transition_to_fin_wait_1_ti a T)|]. split; [eapply NW_fpr; eauto|].
       destruct M as [M|M].
       + left. eapply MF_fpr; [exact F | | exact M]. unfold transition_to_fin_wait_1. destruct (v_state a); reflexivity.
-      + right. destruct F as (_ & _ & _ & _ & _ & _ & _ & _ & _ & E11). lia.
+      + right. destruct F as (_ & _ & _ & _ & _ & _ & _ & _ & _ & E11 & _). lia.
     - (* maybe_send_fin *)
       intros a K _. apply (BC_ctl _ a); [exact K | apply maybe_send_fin_fpr | apply maybe_send_fin_ti|].
       intros b x E (p & l1 & l2 & j & g & _ & _ & _ & _ & _ & _ & _ & A8 & _).
@@ -1154,7 +1154,7 @@ Proof.
   split; [apply (poll_tail_ti sb T)|]. split; [eapply NW_fpr; eauto|].
   destruct M as [M|M].
   - left. eapply MF_fpr; [exact F | apply poll_tail_tr | exact M].
-  - right. destruct F as (_ & _ & _ & _ & _ & _ & _ & _ & _ & E11). lia.
+  - right. destruct F as (_ & _ & _ & _ & _ & _ & _ & _ & _ & E11 & _). lia.
 Qed.
 
 End Backoff.
